@@ -806,4 +806,186 @@ Section Roots.
       assert (0 < 2 ^ 128) by (apply Z.pow_pos_nonneg; lia).
       apply root_newton_ok; [exact Hw|exact Ha|lia|lia|lia|apply sqrt_closure; assumption].
   Qed.
+
+  (* ---- cbrt ---- *)
+  Lemma cbrt_closure dbg w n a : 0 < w -> 3 < B w -> wf w n a -> 2 ^ 128 <= uval w a ->
+    closure_ok w n (cbrt_step dbg w a) (newton 3 (uval w a)) (zroot 3 (uval w a)) (2 ^ (bits_of w a / 3 + 1)).
+  Proof.
+    intros Hw HB3 Ha Hge s Ws Hs.
+    destruct (big_bits w n a Hw Ha Hge) as ((Hbl & HblN) & HA1 & HA2).
+    set (A := uval w a) in *. set (bl := bits_of w a) in *.
+    destruct (zroot_spec 3 A ltac:(lia) ltac:(lia)) as (HR0 & HR1 & HR2).
+    pose proof (zroot_pos 3 A ltac:(lia) ltac:(lia)) as HR. set (R := zroot 3 A) in *.
+    set (S := uval w s) in *.
+    pose proof (Z.div_mod bl 3 ltac:(lia)) as Hdm3. pose proof (Z.mod_pos_bound bl 3 ltac:(lia)) as Hmb3.
+    set (e := bl / 3 + 1) in *.
+    assert (He : 1 <= e) by (unfold e; lia).
+    set (G := 2 ^ e) in *.
+    assert (HG2 : 2 <= G).
+    { unfold G. change 2 with (2 ^ 1) at 1. apply Z.pow_le_mono_r; lia. }
+    (* G^2 * 8 <= M *)
+    assert (HGG : 8 * (G * G) <= Mod w n).
+    { rewrite Mod_as_pow. unfold G. change 8 with (2 ^ 3). rewrite <- !Z.pow_add_r by lia.
+      apply Z.pow_le_mono_r; [lia|]. unfold e. lia. }
+    unfold cbrt_step.
+    destruct (dr_mul D dbg w n s s Hw Ws Ws) as (ss & Ess & Wss & Vss).
+    { fold S. nia. }
+    rewrite Ess. cbn [obind]. fold S in Vss.
+    destruct (U_div_ok DU w n a ss Hw Ha Wss ltac:(rewrite Vss; nia)) as (q & Eq & Wq & Vq). rewrite Eq. cbn [obind].
+    fold A in Vq. rewrite Vss in Vq.
+    assert (Hbits : 1 < bits w n) by lia.
+    rewrite (U_shl_unfold dbg w n s 1 Ws ltac:(lia)). cbn [obind].
+    destruct (dr_shl D w n s 1 Hw Ws ltac:(lia)) as (Ws2 & Vs2).
+    fold S in Vs2. change (2 ^ 1) with 2 in Vs2. rewrite Z.mod_small in Vs2 by nia.
+    assert (HqS : (S * S) * (A / (S * S)) <= A < (S * S) * (A / (S * S)) + S * S).
+    { pose proof (Z.div_mod A (S * S) ltac:(nia)). pose proof (Z.mod_pos_bound A (S * S) ltac:(nia)). lia. }
+    assert (Hqb : A / (S * S) <= S + 6).
+    { replace ((R + 1) ^ 3) with ((R + 1) * (R + 1) * (R + 1)) in HR2 by ring.
+      set (q0 := A / (S * S)) in *.
+      destruct (Z_le_gt_dec q0 (S + 6)) as [|Hgt]; [assumption|exfalso].
+      assert (H1 : (S * S) * (S + 7) <= (S * S) * q0) by (apply Z.mul_le_mono_nonneg_l; nia).
+      assert (H2 : (R + 1) * (R + 1) * (R + 1) <= (S + 1) * (S + 1) * (S + 1)).
+      { assert ((R + 1) * (R + 1) <= (S + 1) * (S + 1)) by nia. nia. }
+      nia. }
+    destruct (dr_add D dbg w n _ q Hw Ws2 Wq) as (t & Et & Wt & Vt).
+    { rewrite Vs2, Vq. nia. }
+    rewrite Et. cbn [obind].
+    destruct (dr_digit D w n t 3 Hw Wt ltac:(lia)) as (Wr & Vr & _).
+    eexists. split; [reflexivity|]. split; [exact Wr|].
+    rewrite Vr, Vt, Vs2, Vq. unfold newton. change (3 - 1) with 2. rewrite Z.pow_2_r. f_equal. ring.
+  Qed.
+
+  Theorem TU_cbrt_ok dbg w n a : 0 < w -> 3 < B w -> u128_width_ok w -> (0 < n)%nat -> wf w n a ->
+    exists r, TU_cbrt dbg w a = Some (Ret r) /\ wf w n r /\ uval w r = zroot 3 (uval w a).
+  Proof.
+    intros Hw HB3 Hok Hn Ha. unfold TU_cbrt.
+    destruct (check_zero_or_one a) eqn:Ec.
+    - exists a. split; [reflexivity|]. split; [exact Ha|].
+      destruct (check_zero_or_one_true w n a Hw Ha Ec) as [E|E]; rewrite E; reflexivity.
+    - apply root_shortcut_ok; try assumption; [lia|]. intros Hge.
+      destruct (big_bits w n a Hw Ha Hge) as ((Hbl & HblN) & HA1 & HA2).
+      assert (0 < 2 ^ 128) by (apply Z.pow_pos_nonneg; lia).
+      apply root_newton_ok; [exact Hw|exact Ha|lia|lia|lia|apply cbrt_closure; assumption].
+  Qed.
+
+  (* ---- nth_root, general degree ---- *)
+  Lemma lin_lt_pow2 N : 0 <= N -> N < 2 ^ (N / 2 + 2).
+  Proof.
+    intros HN. pose proof (Z.div_mod N 2 ltac:(lia)) as Hdm. pose proof (Z.mod_pos_bound N 2 ltac:(lia)) as Hm.
+    assert (H0 : 0 <= N / 2) by (apply Z.div_pos; lia).
+    pose proof (Z.pow_gt_lin_r 2 (N / 2 + 1) ltac:(lia) ltac:(lia)) as Hlin.
+    replace (N / 2 + 2) with (Z.succ (N / 2 + 1)) by lia. rewrite Z.pow_succ_r by lia. lia.
+  Qed.
+
+  Lemma nth_closure dbg w n a k : 0 < w -> (0 < n)%nat -> wf w n a -> 2 ^ 128 <= uval w a ->
+    4 <= k < 2 ^ 32 -> k < bits_of w a ->
+    closure_ok w n (nth_root_step dbg w k a) (newton k (uval w a)) (zroot k (uval w a)) (2 ^ (bits_of w a / k + 1)).
+  Proof.
+    intros Hw Hn Ha Hge Hk Hkb s Ws Hs.
+    destruct (big_bits w n a Hw Ha Hge) as ((Hbl & HblN) & HA1 & HA2).
+    pose proof (uval_bounds w n a ltac:(lia) Ha) as HAM. rewrite Mod_as_pow in HAM.
+    set (A := uval w a) in *. set (bl := bits_of w a) in *. set (N := bits w n) in *.
+    destruct (zroot_spec k A ltac:(lia) ltac:(lia)) as (HR0 & HR1 & HR2).
+    set (R := zroot k A) in *. set (S := uval w s) in *.
+    (* the root is at least 2 *)
+    assert (HR : 2 <= R).
+    { destruct (Z_le_gt_dec 2 R) as [|Hlt]; [assumption|exfalso].
+      assert ((R + 1) ^ k <= 2 ^ k) by (apply Z.pow_le_mono_l; lia).
+      assert (2 ^ k <= 2 ^ (bl - 1)) by (apply Z.pow_le_mono_r; lia). lia. }
+    assert (HS2 : 2 <= S) by lia.
+    set (e := bl / k + 1) in *. set (G := 2 ^ e) in *.
+    assert (He : 1 <= e <= N / 4 + 1).
+    { unfold e. assert (0 <= bl / k) by (apply Z.div_pos; lia).
+      assert (bl / k <= bl / 4) by (apply Z.div_le_compat_l; lia).
+      assert (bl / 4 <= N / 4) by (apply Z.div_le_mono; lia). lia. }
+    pose proof (Z.div_mod N 2 ltac:(lia)) as HdN2. pose proof (Z.mod_pos_bound N 2 ltac:(lia)) as HmN2.
+    pose proof (Z.div_mod N 4 ltac:(lia)) as HdN4. pose proof (Z.mod_pos_bound N 4 ltac:(lia)) as HmN4.
+    assert (HG0 : 0 < G) by (apply Z.pow_pos_nonneg; lia).
+    (* (k-1) * S < 2^(N-1) *)
+    assert (Hk1 : k - 1 < 2 ^ (N / 2 + 2)) by (pose proof (lin_lt_pow2 N ltac:(lia)); lia).
+    assert (HkS : S * (k - 1) < 2 ^ (N - 1)).
+    { assert (S * (k - 1) <= G * (k - 1)) by (apply Z.mul_le_mono_nonneg_r; lia).
+      assert (G * (k - 1) < G * 2 ^ (N / 2 + 2)) by (apply Z.mul_lt_mono_pos_l; lia).
+      assert (G * 2 ^ (N / 2 + 2) = 2 ^ (e + (N / 2 + 2))) by (unfold G; symmetry; apply Z.pow_add_r; lia).
+      assert (2 ^ (e + (N / 2 + 2)) <= 2 ^ (N - 1)) by (apply Z.pow_le_mono_r; lia). lia. }
+    (* the quotient is below 2^(N-3) *)
+    set (p := S ^ (k - 1)) in *.
+    assert (Hp8 : 8 <= p).
+    { unfold p. change 8 with (2 ^ 3).
+      assert (2 ^ 3 <= 2 ^ (k - 1)) by (apply Z.pow_le_mono_r; lia).
+      assert (2 ^ (k - 1) <= S ^ (k - 1)) by (apply Z.pow_le_mono_l; lia). lia. }
+    assert (HQ : 8 * (A / p) <= A).
+    { pose proof (Z.div_mod A p ltac:(lia)) as Hd. pose proof (Z.mod_pos_bound A p ltac:(lia)) as Hm.
+      assert (0 <= A / p) by (apply Z.div_pos; lia).
+      assert (8 * (A / p) <= p * (A / p)) by (apply Z.mul_le_mono_nonneg_r; lia). lia. }
+    assert (H2N : 2 ^ N = 8 * 2 ^ (N - 3)).
+    { change 8 with (2 ^ 3). rewrite <- Z.pow_add_r by lia. f_equal. lia. }
+    assert (H2N1 : 2 ^ (N - 1) = 4 * 2 ^ (N - 3)).
+    { change 4 with (2 ^ 2). rewrite <- Z.pow_add_r by lia. f_equal. lia. }
+    assert (Hsum : S * (k - 1) + A / p < Mod w n) by (rewrite Mod_as_pow; fold N; lia).
+    assert (HkM : k < Mod w n).
+    { rewrite Mod_as_pow. fold N. pose proof (Z.pow_gt_lin_r 2 N ltac:(lia) ltac:(lia)). lia. }
+    unfold nth_root_step. rewrite (wf_length _ _ _ Ha).
+    (* q *)
+    assert (Hq : exists q, match U_checked_pow w s (k - 1) with
+                           | Some p0 => U_div w a p0
+                           | None => Ret (ZERO n)
+                           end = Ret q /\ wf w n q /\ uval w q = A / p).
+    { pose proof (dr_pow D w n s (k - 1) Hw Hn Ws ltac:(lia)) as Hpow. fold S in Hpow. fold p in Hpow.
+      destruct (U_checked_pow w s (k - 1)) as [p0|].
+      - destruct Hpow as (Wp & Vp & _).
+        destruct (U_div_ok DU w n a p0 Hw Ha Wp ltac:(lia)) as (q & Eq & Wq & Vq).
+        exists q. split; [exact Eq|]. split; [exact Wq|]. rewrite Vq, Vp. reflexivity.
+      - exists (ZERO n). split; [reflexivity|]. split; [apply wf_ZERO; lia|].
+        rewrite uval_ZERO. symmetry. apply Z.div_small. rewrite Mod_as_pow in Hpow. fold N in Hpow. lia. }
+    destruct Hq as (q & Eq & Wq & Vq). rewrite Eq. cbn [obind].
+    destruct (U_from_uint_spec w n 32 (k - 1) Hw ltac:(lia) ltac:(lia) ltac:(lia)) as (mul & Emul & Wmul & Vmul).
+    unfold U_from_u32. rewrite Emul. cbn [obind].
+    destruct (dr_mul D dbg w n s mul Hw Ws Wmul) as (sm & Esm & Wsm & Vsm).
+    { rewrite Vmul. fold S. rewrite Mod_as_pow. fold N. lia. }
+    rewrite Esm. cbn [obind].
+    destruct (dr_add D dbg w n sm q Hw Wsm Wq) as (t & Et & Wt & Vt).
+    { rewrite Vsm, Vmul, Vq. fold S. exact Hsum. }
+    rewrite Et. cbn [obind].
+    destruct (U_from_uint_spec w n 32 k Hw ltac:(lia) ltac:(lia) ltac:(lia)) as (kk & Ekk & Wkk & Vkk).
+    rewrite Ekk. cbn [obind].
+    destruct (dr_divrem D w n t kk Hw Wt Wkk ltac:(lia)) as (Wr & _ & Vr & _).
+    eexists. split; [reflexivity|]. split; [exact Wr|].
+    rewrite Vr, Vt, Vsm, Vmul, Vq, Vkk. fold S. unfold newton. fold p. f_equal. ring.
+  Qed.
+
+  (* every degree: uval (nth_root a k) = floor (a^(1/k)); degree 0 panics *)
+  Theorem TU_nth_root_ok dbg w n a k : 0 < w -> 3 < B w -> u128_width_ok w -> (0 < n)%nat -> wf w n a ->
+    1 <= k < 2 ^ 32 ->
+    exists r, TU_nth_root dbg w a k = Some (Ret r) /\ wf w n r /\ uval w r = zroot k (uval w a).
+  Proof.
+    intros Hw HB3 Hok Hn Ha Hk.
+    pose proof (uval_bounds w n a ltac:(lia) Ha) as HAM.
+    unfold TU_nth_root.
+    destruct (Z.eqb_spec k 0); [lia|].
+    destruct (Z.eqb_spec k 1) as [->|Hk1].
+    { exists a. split; [reflexivity|]. split; [exact Ha|].
+      destruct (zroot_spec 1 (uval w a) ltac:(lia) ltac:(lia)) as (H0 & H1 & H2). rewrite !Z.pow_1_r in *. lia. }
+    destruct (Z.eqb_spec k 2) as [->|Hk2]; [apply TU_sqrt_ok; assumption|].
+    destruct (Z.eqb_spec k 3) as [->|Hk3]; [apply TU_cbrt_ok; assumption|].
+    destruct (check_zero_or_one a) eqn:Ec.
+    - exists a. split; [reflexivity|]. split; [exact Ha|].
+      destruct (check_zero_or_one_true w n a Hw Ha Ec) as [E|E]; rewrite E.
+      + unfold zroot. reflexivity.
+      + unfold zroot. cbn [Z.leb Z.compare Z.log2]. destruct (Z.ltb_spec 0 k); [reflexivity|lia].
+    - apply root_shortcut_ok; try assumption; [lia|]. intros Hge.
+      destruct (big_bits w n a Hw Ha Hge) as ((Hbl & HblN) & HA1 & HA2).
+      assert (H128 : 0 < 2 ^ 128) by (apply Z.pow_pos_nonneg; lia).
+      destruct (Z.leb_spec (bits_of w a) k) as [Hle|Hgt].
+      + (* no iteration: a < 2^k, the root is 1 *)
+        rewrite (wf_length _ _ _ Ha). exists (ONE n). split; [reflexivity|]. split; [apply wf_ONE; exact Hw|].
+        rewrite uval_ONE by exact Hn. symmetry.
+        apply (root_unique k (uval w a)); [lia|apply zroot_spec; lia|lia|apply zroot_spec; lia|].
+        rewrite Z.pow_1_l by lia. change (1 + 1) with 2. split; [lia|].
+        assert (2 ^ bits_of w a <= 2 ^ k) by (apply Z.pow_le_mono_r; lia). lia.
+      + apply root_newton_ok; [exact Hw|exact Ha|lia|lia|lia|apply nth_closure; try assumption; lia].
+  Qed.
+
+  Theorem TU_nth_root_zero dbg w a : TU_nth_root dbg w a 0 = Some Panic.
+  Proof. reflexivity. Qed.
 End Roots.
